@@ -109,11 +109,22 @@ class BGPLS(NLRI):
         # RFC 7911 ADD-PATH is possible for BGP-LS but not yet implemented
         # TODO: implement addpath support when negotiated.addpath.send(AFI.bgpls, self.safi)
         # Wire format: [type(2)][length(2)][payload] - _packed includes header
-        return self._packed
+        #
+        # The BGP-LS-VPN decoder cuts the route distinguisher out of _packed and keeps it in
+        # route_d: it goes back where it was, between the header and the payload, with the
+        # length that covers it (RFC 7752 3.2). Without it the NLRI was sent, and indexed, as
+        # if it belonged to no VPN: two VPNs announcing the same node were one route.
+        route_d = getattr(self, 'route_d', None)
+        if route_d is None or len(route_d) == 0:
+            return self._packed
+        code, length = unpack('!HH', bytes(self._packed[:4]))
+        return pack('!HH', code, length + len(route_d)) + bytes(route_d.pack_rd()) + bytes(self._packed[4:])
 
     def index(self) -> bytes:
-        # Wire format: [family][type(2)][length(2)][payload] - _packed includes header
-        return bytes(Family.index(self)) + self._packed
+        # Wire format: [family][type(2)][length(2)][rd when VPN][payload]
+        from exabgp.bgp.message.open.capability.negotiated import Negotiated
+
+        return bytes(Family.index(self)) + bytes(self.pack_nlri(Negotiated.UNSET))
 
     @classmethod
     def unpack_bgpls_nlri(cls, data: Buffer, rd: 'RouteDistinguisher') -> 'BGPLS':
@@ -265,6 +276,8 @@ class BGPLS(NLRI):
             klass = GenericBGPLS(code, wire_format)
 
         klass.addpath = addpath
+        # the object is of the family it was received in (it said bgp-ls whatever the SAFI)
+        klass._safi = safi
 
         # the descriptors parse lazily, so a sub-tlv this decoder cannot read used to be
         # accepted here and fail later in the API writer calling json(): a raw exception
